@@ -135,6 +135,7 @@ impl IoSched for SchedHooks {
                 // ordinary call whose real answer (EWOULDBLOCK or success) is taken as it comes
                 Kind::Flock if locking && !nonblocking => Op::Flock { ino, fd, shared: arg & (libc::LOCK_SH as i64) != 0 },
                 Kind::Lseek => return None, // seek + write form one step: the write is the point
+                Kind::Stat => return None, // reads the file length only: no scheduling point (faults still apply)
                 k => Op::Io(k),
             };
             let model_lock = matches!(op, Op::Flock { .. });
